@@ -35,6 +35,10 @@ type Macro struct {
 
 var macros = map[string]*Macro{} // key: relpkg + "." + name
 
+// axioms: named defining equations of uninterpreted spec functions, written in the contract language
+// (//@ axiom name = expr); a function whose contract says "uses name" may assume it. key: relpkg + "." + name
+var axioms = map[string]*Clause{}
+
 type Contract struct {
 	Key       string
 	File      string
@@ -43,6 +47,7 @@ type Contract struct {
 	Ensures   []*Clause
 	Exsures   []*Clause
 	Preserves []*Clause
+	Uses      []string  // names of axioms the proof of this function may assume
 	Keeps     []string  // Go type expressions: heap components of these map/slice types are not modified even under "modifies *"
 	Callsite  []*Clause // must hold (in the caller's terms) at every recursive call of the function to itself
 	Implements string // key suffix of a function-type contract, e.g. "type:instFunc"
@@ -59,7 +64,7 @@ type Contract struct {
 	Lemma     bool
 }
 
-var kwRe = regexp.MustCompile(`^(define|implements|preserves|keeps|callsite|func|requires|ensures|exsures|modifies|nopanic|assumed|inline|loop|decreases|params|lemma)\b`)
+var kwRe = regexp.MustCompile(`^(axiom|uses|define|implements|preserves|keeps|callsite|func|requires|ensures|exsures|modifies|nopanic|assumed|inline|loop|decreases|params|lemma)\b`)
 
 // parseContracts reads all zz_verif_contracts.go files below repo.
 func parseContracts(repo string) (map[string]*Contract, []string, error) {
@@ -116,7 +121,7 @@ func parseContractFile(path, relpkg string, out map[string]*Contract) error {
 	}
 	var pend *pending
 	flush := func() error {
-		if pend == nil || (cur == nil && pend.kind != "define") {
+		if pend == nil || (cur == nil && pend.kind != "define" && pend.kind != "axiom") {
 			pend = nil
 			return nil
 		}
@@ -138,6 +143,18 @@ func parseContractFile(path, relpkg string, out map[string]*Contract) error {
 			return &Clause{Text: text, Expr: e, Target: target, Line: fmt.Sprintf("%s:%d", path, p.line)}, nil
 		}
 		switch p.kind {
+		case "axiom":
+			i := strings.Index(text, "=")
+			if i < 0 {
+				return fmt.Errorf("%s:%d: axiom needs 'name = expr'", path, p.line)
+			}
+			name, body := strings.TrimSpace(text[:i]), strings.TrimSpace(text[i+1:])
+			e, err := parseContractExpr(body)
+			if err != nil {
+				return fmt.Errorf("%s:%d: %v in %q", path, p.line, err, body)
+			}
+			axioms[relpkg+"."+name] = &Clause{Text: body, Expr: e, Line: fmt.Sprintf("%s:%d", path, p.line)}
+			return nil
 		case "define":
 			i := strings.Index(text, "=")
 			if i < 0 {
@@ -275,6 +292,8 @@ func parseContractFile(path, relpkg string, out map[string]*Contract) error {
 			out[key] = cur
 		case "implements":
 			cur.Implements = rest
+		case "uses":
+			cur.Uses = append(cur.Uses, strings.Fields(strings.ReplaceAll(rest, ",", " "))...)
 		case "keeps":
 			cur.Keeps = append(cur.Keeps, rest)
 		case "nopanic":
